@@ -409,6 +409,18 @@ impl Evaluatable for Value {
         match self {
             Self::Identifier(id) => ctx.lookup(id).and_then(|x| x.value_of(ctx)),
             Self::OpCall(f) => f.call(ctx),
+            // the members of an array or tuple belong to the scope the literal is evaluated in: resolve them here, not
+            // later in the scope of whoever picks a member out (`let x=1 in let t=(x,2) in let x="s" in t.0` is 1)
+            Self::Array(a) => Ok(Self::Array(Arc::new(
+                a.iter()
+                    .map(|x| x.value_of(ctx.clone()))
+                    .collect::<Result<Vec<_>, _>>()?,
+            ))),
+            Self::Tuple(t) => Ok(Self::Tuple(Arc::new(
+                t.iter()
+                    .map(|x| x.value_of(ctx.clone()))
+                    .collect::<Result<Vec<_>, _>>()?,
+            ))),
             // Self::NativeObject(f) => {
             //     let e = f.as_evaluatable();
             //     if let Some(e) = e {
